@@ -568,6 +568,7 @@ EGLPNUM_TYPENAME_QSLIB_INTERFACE int EGLPNUM_TYPENAME_QSopt_strongbranch (
 	EGLPNUM_TYPE objbound)
 {
 	int rval = 0;
+	int i;
 
 	rval = check_qsdata_pointer (p);
 	CHECKRVALG (rval, CLEANUP);
@@ -576,6 +577,19 @@ EGLPNUM_TYPENAME_QSLIB_INTERFACE int EGLPNUM_TYPENAME_QSopt_strongbranch (
 	{
 		rval = 1;
 		CHECKRVALG (rval, CLEANUP);
+	}
+
+	/* refuse the whole list before the first branching LP is solved inside
+	 * p->lp: a bad entry met half way left the working basis of the last
+	 * branching LP behind, next to the stored solution and status */
+	for (i = 0; i < ncand; i++)
+	{
+		if (candidatelist[i] < 0 || candidatelist[i] >= p->qslp->nstruct)
+		{
+			QSlog("entry %d in candidatelist out of range", i);
+			rval = 1;
+			goto CLEANUP;
+		}
 	}
 
 	rval = EGLPNUM_TYPENAME_ILLlib_strongbranch (p->lp, p->pricing, candidatelist, ncand,
